@@ -44,7 +44,7 @@ PROPS = {
             fam("conv-grad", g(gen.fam_conv, grads=True), 150, 2500, view="values", rule="distinct (batch, depth, image, filters, strides); overlapping and uneven strides tagged"),
             fam("reduce-grad", g(gen.fam_reduce, grads=True), 0, 0, view="values", rule="distinct (shape, k) / reshape targets / element maps, non-uniform seeds"),
             fam("reduce-grad-float", g(gen.fam_reduce, mode="float", grads=True), 0, 0, mode="float", view="values", rule="as above, all element maps, exponents in [-3,3]"),
-            fam("edges-float", g(gen.fam_scalar_edges, mode="float"), 0, 0, mode="float", view="values", rule="every scalar function at magnitudes 1e-30..1e30 (value and gradient), binary operations across magnitudes, costs on probabilities near 0 and 1"),
+            fam("edges-float", g(gen.fam_scalar_edges, mode="float"), 0, 0, mode="float", view="values", relative=True, rule="every scalar function at magnitudes 1e-30..1e30 (value and gradient), binary operations across magnitudes, costs on probabilities near 0 and 1"),
             fam("sizes-grad", g(gen.fam_sizes, grads=True), 0, 0, view="values", rule="lengths 5..65 that are not small powers of two (loop remainders): gradients of reductions, maps, element-wise operations, matmul (all flags, additive term), conv"),
         ],
         "assumptions": [F64_NOTE, SEED_NOTE, "x = 0 with an exponent below 1 is outside powf's differentiable domain"],
@@ -135,6 +135,7 @@ PROPS = {
         "families": [
             fam("optim", g(gen.fam_optim, frompass=False), 150, 4000, view="update", rule="every frozen subset of 1-4 parameters, random lists of 1-6, repeated updates, gradients from real passes"),
             fam("optim-float", g(gen.fam_optim, mode="float", frompass=False), 50, 1000, mode="float", view="update", rule="arbitrary learning rates"),
+            fam("train", g(gen.fam_train), 60, 600, view="update", rule="the optimizer as the model drives it: parameters (values and gradient presence) after every `update`, whoever produced the gradients (Model::backward or the caller's own backward), updates before the first pass and repeated updates"),
         ],
         "assumptions": [F64_NOTE],
     },
@@ -187,7 +188,7 @@ PROPS = {
             fam("ewise-grad-f32", g(gen.fam_ewise, grads=True), 40, 1000, variant="f32", baseline_variant="f64", rule="gradients of broadcast pairs"),
             fam("reduce-f32-float", g(gen.fam_reduce, mode="f32"), 0, 0, mode="f32", variant="f32", baseline_variant="f64", rule="non-ring maps against Lean Float32 with tolerance 2e-4"),
             fam("dag-f32-float", g(gen.fam_dag, mode="f32"), 60, 1500, mode="f32", variant="f32", baseline_variant="f64", rule="random programs against Lean Float32"),
-            fam("edges-f32-float", g(gen.fam_scalar_edges, mode="f32"), 0, 0, mode="f32", variant="f32", baseline_variant="f64", rule="every scalar function at magnitudes 1e-30..1e30 (value and gradient), binary operations across magnitudes, costs on probabilities near 0 and 1: against Lean Float32"),
+            fam("edges-f32-float", g(gen.fam_scalar_edges, mode="f32"), 0, 0, mode="f32", variant="f32", baseline_variant="f64", relative=True, rule="every scalar function at magnitudes 1e-30..1e30 (value and gradient), binary operations across magnitudes, costs on probabilities near 0 and 1: against Lean Float32"),
             fam("sizes-f32", g(gen.fam_sizes), 0, 0, variant="f32", baseline_variant="f64", rule="lengths 5..65 that are not small powers of two (loop remainders): every part, exact channel on the f32 build"),
             fam("sizes-grad-f32", g(gen.fam_sizes, grads=True), 0, 0, variant="f32", baseline_variant="f64", rule="as above with gradients"),
         ],
